@@ -318,6 +318,37 @@ def prof_versions(rng, n, tier):
         # persisted roots must still load to their captured contents
         for r in roots:
             x = h.load(r); h.observe(x)
+        sc = i % 3
+        if sc == 0:
+            # a chain of captures of one loaded version: clone, clone of the clone, cursor on the clone - then
+            # each of them is modified in turn and all are re-read
+            r = h.mkroot(t0); x = h.load(r)
+            c1 = h.clone(x); c2 = h.clone(c1); cu = h.cursor(c1); c3 = h.clone(c2)
+            group = [x, c1, c2, c3]
+            for y in [c1, c2, x, c3]:
+                mutate(h, y, rng.randint(2, 6), p_del=0.35)
+                for z in group:
+                    h.ops.append("iter %d" % z)
+                h.ops += ["cmin %d" % cu, "cget %d" % cu]   # (Min is relative to the position: the cursor is never moved off it here)
+        if h.cache != "none" and h.ref[t0]:
+            # two trees loaded from one root both delete the key that separates the same two siblings,
+            # the second one after changing the right-hand sibling
+            r = h.mkroot(t0); a = h.load(r); b = h.load(r)
+            live = sorted(h.ref[a], key=key_sort)
+            ml = max(key_layer(k, h.bf) for k in live)
+            seps = [k for k in live if key_layer(k, h.bf) >= 1] or live
+            for k in rng.sample(seps, min(3, len(seps))):
+                if k not in h.ref[a] or k not in h.ref[b]:
+                    continue
+                h.dele(a, k)
+                after = [q for q in sorted(h.ref[b], key=key_sort) if key_sort(q) > key_sort(k)]
+                if after:
+                    h.dele(b, after[0])
+                h.dele(b, k)
+                for z in (a, b):
+                    h.ops.append("iter %d" % z)
+                    for q in sorted(h.ref[z], key=key_sort)[:40:3]:
+                        h.get(z, q)
         out.append(h)
     return out
 
@@ -464,6 +495,20 @@ def prof_diff(rng, n, tier, persisted=None):
             h.mkroot(b); b = h.load(h.nr - 1)
             h.tags.add("tall"); h.tags.add("persisted")
             h.ops += ["difflinks %d %d" % (b, a), "diff %d %d" % (b, a), "difflinks %d %d" % (a, b)]
+            out.append(h)
+            continue
+        if persisted and rng.random() < 0.1:
+            # a writer with a node cache persists two versions; a reader without the cache (another process) holds the
+            # older one: common subtrees must still be recognised as equal and skipped, whichever side is the cached one
+            h = H("dif%d" % i, rng, cache="big", bfs=[3, 4, 16])
+            w = h.new()
+            build_tree(h, w, rng.choice([40, 90, 200]))
+            r1 = h.mkroot(w)
+            mutate(h, w, rng.randint(1, 3))
+            h.mkroot(w)
+            x = h.load(r1, nc=True)
+            h.tags.add("writer-cache"); h.tags.add("persisted")
+            h.ops += ["difflinks %d %d" % (w, x), "diff %d %d" % (w, x), "difflinks %d %d" % (x, w), "diff %d %d" % (x, w)]
             out.append(h)
             continue
         h = H("dif%d" % i, rng, cache="none")
@@ -619,10 +664,16 @@ def prof_malformed(rng, n, tier):
             vs = rng.sample(range(2, 400), rng.randint(2, 12))
             if rng.random() < 0.6:
                 vs.append(1)      # "1" is the smallest key under both orders: only the later neighbours are out of order
+            order = rng.choice(["text", "half"])
+            if order == "half":
+                # a coarser order: neighbours 2k, 2k+1 compare equal under it (reject), other sets stay ascending (accept)
+                vs = sorted(set(2 * v for v in vs))
+                if rng.random() < 0.6:
+                    vs.append(rng.choice(vs) + 1)
             for v in vs:
                 h.ins(t, pre % v, gen_val(rng, h.vt))
             r = h.mkroot(t)
-            h.ops.append("loadord %d %d 0 %d text" % (r, h.nt, h.kind)); h.nt += 1
+            h.ops.append("loadord %d %d 0 %d %s" % (r, h.nt, h.kind, order)); h.nt += 1
             out.append(h)
             continue
         h = H("mal%d" % i, rng, cache=rng.choice(["none", "big"]), kind=rng.choice([0, 0, 1, 2, 5]))
@@ -793,6 +844,14 @@ def prof_keyfuncs(rng, n, tier):
             keys += ["i:%d" % v for v in (0, -1, 2 ** 63 - 1, -2 ** 63 + 1, rng.randint(-2 ** 62, 2 ** 62), 16 ** rng.randint(1, 15), -(3 ** rng.randint(1, 39)))]
         if kind == 1:
             keys += ["u:%d" % v for v in (0, 2 ** 64 - 1, 2 ** 63, rng.randint(0, 2 ** 64 - 1), 2 ** rng.randint(1, 63), 7 ** rng.randint(1, 22))]
+        if i % 4 == 3:
+            # the narrower built-in integer types: layered as integers, ordered by their JSON text (10 before 9)
+            bits = rng.choice([8, 16, 32]); sg = rng.choice(["ni", "nu"])
+            lo, hi = (-(2 ** (bits - 1)), 2 ** (bits - 1) - 1) if sg == "ni" else (0, 2 ** bits - 1)
+            vals = [lo, hi, 0, 9, 10, 99, 100, 16, 64] + [rng.randint(lo, hi) for _ in range(8)] + [rng.choice([2, 3, 4, 16]) ** rng.randint(1, 6) for _ in range(3)]
+            if sg == "ni":
+                vals += [-1, -9, -10, -16]
+            keys = ["%s:%d:%d" % (sg, bits, v) for v in vals if lo <= v <= hi]
         for k in keys:
             for bf in (2, 3, 4, 16, rng.choice([5, 7, 10, 17, 100, 255, 256, 1000])):
                 h.ops.append("layer %s %d" % (k, bf))
